@@ -88,7 +88,9 @@ CHECKS = {
          "set-based model (which relation must complete at which object, what is retrievable when, what is incomplete); TLC "
          "checks agreement over all scenarios within the bounds. Exported scenarios (exhaustive small, simulated larger) are "
          "replayed on all eight RelationsManager instantiations; callbacks, member retrievability inside the callback, lookups "
-         "of every known id afterwards, pending count and the incomplete list are compared after every call.",
+         "of every known id afterwards, pending count and the incomplete list are compared after every call. Families: padded "
+         "members (stash GC in the middle), negative ids in file order, and 'wide' (one tracked member-list entry listed 2^8 / "
+         "2^16 times: the countdown and the members database range beyond TLC's list lengths).",
     design_ref="DESIGN.md section 4, C11",
     note="Bounds: <=3 relations, <=4 members, 6 member refs incl. relation-in-relation, 9 stream objects; sorted distinct "
          "streams only; MultipolygonManager only through its RelationsManager base; output-buffer flush thresholds not varied.",
